@@ -437,5 +437,7 @@ def jobs(tier):
     if tier != "quick":
         out += [("scaling-3", lambda j: job_scaling(j, 3)), ("fit-3", lambda j: job_fit(j, 3)), ("scaling-5", lambda j: job_scaling(j, 5)),
                 ("fit-4", lambda j: job_fit(j, 4)), ("fit-3-halfinf", lambda j: job_fit(j, 3, inf_hi=True)), ("refit-3", lambda j: job_refit(j, 3)),
-                ("scaling-8", lambda j: job_scaling(j, 8)), ("fit-6", lambda j: job_fit(j, 6)), ("refit-5", lambda j: job_refit(j, 5))]
+                ("scaling-8", lambda j: job_scaling(j, 8)), ("fit-6", lambda j: job_fit(j, 6)), ("refit-5", lambda j: job_refit(j, 5)),
+                ("scaling-16", lambda j: job_scaling(j, 16)), ("fit-10", lambda j: job_fit(j, 10)), ("fit-6-halfinf", lambda j: job_fit(j, 6, inf_hi=True)),
+                ("refit-8", lambda j: job_refit(j, 8)), ("fit-4-bounds-reassigned", lambda j: job_fit(j, 4, rebound=True))]
     return out
